@@ -176,11 +176,15 @@ def check(ctx):
         # fits with random data
         if N <= 4:
             for orders in ([2], [2, 3], [2, 3, 4], [3], [4], [3, 4]):
-                d, f = random_dataset(rng, 3, N)
+                d, f = random_dataset(rng, int(rng.choice([3, 12, 30])), N)
                 o = Symfc(at, displacements=d, forces=f).compute_basis_set(orders=orders)
                 if any(b.basis_set.shape[1] == 0 for b in o.basis_set.values()):
                     continue  # empty basis for one order (outside the quantifier)
-                o.solve(orders=orders, is_compact_fc=False)
+                try:
+                    o.solve(orders=orders, is_compact_fc=False)
+                except np.linalg.LinAlgError:
+                    ctx.count("fit-underdetermined-raised")   # too few snapshots: the solver fails loudly (C06), nothing to check
+                    continue
                 for k, fc in o.force_constants.items():
                     a, pi = perm_asym(fc, k)
                     ctx.case({"cell": sc["name"], "fit": orders, "order": k}, nontrivial=True)
